@@ -258,5 +258,50 @@ void layout(const char *uname, const char *rname) {
     layout_one<au::QuantityPoint<U, R>, R>("QuantityPoint", uname, rname);
 }
 
+// ---- C19: ZERO ---------------------------------------------------------------------------------------
+template <typename U, typename R>
+__attribute__((noinline)) void run_zero(long id, const char *rname, const char *uname, u64 nrandom, u64 seed) {
+    g_st.clear();
+    vf::g_inst = id;
+    static std::vector<R> vals;
+    vals = operands<R>(nrandom, seed, std::is_floating_point<R>{});
+    if (sizeof(R) == 2 && std::is_integral<R>::value) {  // all 16-bit values
+        vals.clear();
+        for (i128 x = std::numeric_limits<R>::lowest(); x <= (i128)std::numeric_limits<R>::max(); ++x) vals.push_back((R)x);
+    }
+    static const R *pv;
+    pv = vals.data();
+    using Q = au::Quantity<U, R>;
+    vf::run_loop(0, vals.size(), [&](u64 idx) {
+        const R a = pv[idx];
+        const R b = R{0};
+        { u64 x = 0; memcpy(&x, &a, sizeof(R) < 8 ? sizeof(R) : 8); vf::g_aux0 = x; }
+        const R la = vf::launder(a);
+        const R z = vf::launder(R{0});
+        Q q = au::make_quantity<U>(la);
+        VF_CMP("q==Z", q == au::ZERO, la == z); VF_CMP("q!=Z", q != au::ZERO, la != z); VF_CMP("q<Z", q < au::ZERO, la < z);
+        VF_CMP("q<=Z", q <= au::ZERO, la <= z); VF_CMP("q>Z", q > au::ZERO, la > z); VF_CMP("q>=Z", q >= au::ZERO, la >= z);
+        VF_CMP("Z==q", au::ZERO == q, z == la); VF_CMP("Z!=q", au::ZERO != q, z != la); VF_CMP("Z<q", au::ZERO < q, z < la);
+        VF_CMP("Z<=q", au::ZERO <= q, z <= la); VF_CMP("Z>q", au::ZERO > q, z > la); VF_CMP("Z>=q", au::ZERO >= q, z >= la);
+        // q + ZERO == q - ZERO == q : same value as the raw x + 0 / x - 0 (in the promoted type)
+        VF_CMP("q+Z", (q + au::ZERO).in(U{}), la + z);
+        VF_CMP("q-Z", (q - au::ZERO).in(U{}), la - z);
+        VF_CMP("Z+q", (au::ZERO + q).in(U{}), z + la);
+        { Q q2 = q; R r2 = la; r2 += z; VF_CMP("q+=Z", (q2 += au::ZERO, q2.in(U{})), r2); }
+        { Q q2 = q; R r2 = la; r2 -= z; VF_CMP("q-=Z", (q2 -= au::ZERO, q2.in(U{})), r2); }
+        VF_CMP("Q{Z}", Q{au::ZERO}.in(U{}), z);
+        { Q q3 = au::ZERO; VF_CMP("Q=Z", q3.in(U{}), z); }
+        { Q q4 = q; q4 = au::ZERO; VF_CMP("q=Z", q4.in(U{}), z); }
+        { R t = au::ZERO; VF_CMP("T=Z", t, z); }
+        VF_CMP("min", min(q, au::ZERO).in(U{}), (z < la ? z : la));
+        VF_CMP("max", max(q, au::ZERO).in(U{}), (z < la ? la : z));
+    });
+    printf("{\"ev\":\"zero\",\"id\":%ld,\"rep\":\"%s\",\"unit\":\"%s\",\"evals\":%llu,\"values\":%zu,\"mm\":%llu,\"wit\":[", id, rname, uname,
+           (unsigned long long)g_st.evals, vals.size(), (unsigned long long)g_st.mm);
+    for (int i = 0; i < g_st.nwit; ++i)
+        printf("%s{\"op\":\"%s\",\"a\":\"%s\",\"got\":\"%s\",\"want\":\"%s\"}", i ? "," : "", g_st.wit[i].op, g_st.wit[i].a, g_st.wit[i].got, g_st.wit[i].want);
+    printf("]}\n");
+}
+
 }  // namespace vfw
 #endif
